@@ -9,6 +9,8 @@ pub mod c06;
 pub mod c07;
 pub mod c08;
 pub mod c09;
+pub mod c10;
+pub mod c11;
 pub mod c12;
 pub mod c13;
 pub mod c14;
@@ -18,7 +20,7 @@ pub mod c18;
 pub mod c20;
 
 pub fn all() -> Vec<MonitorDef> {
-	vec![c01::def(), c02::def(), c03::def(), c04::def(), c05::def(), c06::def(), c07::def(), c08::def(), c09::def(), c12::def(), c13::def(), c14::def(), c15::def(), c16::def(), c18::def(), c20::def()]
+	vec![c01::def(), c02::def(), c03::def(), c04::def(), c05::def(), c06::def(), c07::def(), c08::def(), c09::def(), c10::def(), c11::def(), c12::def(), c13::def(), c14::def(), c15::def(), c16::def(), c18::def(), c20::def()]
 }
 
 /// non-property sub-commands (helpers used by the driver); none yet
